@@ -2,7 +2,7 @@
 import math
 from fractions import Fraction as F
 
-REPO_SRCS = ["src/Utils/Probability.cpp"]
+REPO_SRCS = ["src/Utils/Probability.cpp", "src/MDP/Model.cpp", "src/MDP/SparseModel.cpp", "src/Seeder.cpp"]
 AXIOM_ALLOW = []
 ASAN_QUICK = True          # the sparse-row scan is a memory-safety clause: run every case under ASan+UBSan
 CASE_TIMEOUT = 10
@@ -19,7 +19,7 @@ ASSUMPTIONS = [
     "models compute in exact rationals; bit-exact agreement is required on the dyadic regime "
     "(entries k/2^j, j <= 20; alias tables for n a power of two), 1e-9 closeness of masses/vectors otherwise",
 ]
-RULE = ("cases from props/C08.py gen(): dense / sparse / alias / randp / proj; each sampler case sweeps the draw over "
+RULE = ("cases from props/C08.py gen(): dense / sparse / alias / randp / proj / sr (sampleSR, sampleSOR on random dyadic models, draws observed from the models' own engines); each sampler case sweeps the draw over "
         "every cumulative sum -1ulp/0/+1ulp, 0, the largest double below 1 and random 53-bit points; vectors of "
         "length 1..12, zeros anywhere, mass at first/last index, sums 1 and 1 +- 2^-20; non-trivial = more than one "
         "entry (more than one stored entry for sparse rows, S>=3 for random simplex points); distinct by md5 of the case line")
@@ -195,6 +195,23 @@ def gen_proj(rng):
     return "proj %s %s" % (tag, L([fq(x) for x in v]))
 
 
+def gen_sr(rng):
+    variant = rng.choice(["dense", "sparse", "pomdp"])
+    S, A = rng.randint(1, 5), rng.randint(1, 3)
+    O = rng.randint(1, 4) if variant == "pomdp" else 0
+
+    def dist(n):
+        while True:
+            p = dyadic_vec(rng, n)
+            if sum(p) == 1:
+                return p
+    T = [fq(x) for a in range(A) for s in range(S) for x in dist(S)]
+    R = [fq(F(rng.randint(-16, 16), 4)) for _ in range(S * A)]
+    Ob = [fq(x) for a in range(A) for s1 in range(S) for x in dist(O)] if O else []
+    return "sr %s %d %d %d %s %d %d %d %d" % (variant, S, A, O, " ".join(T + R + Ob), rng.randrange(S), rng.randrange(A),
+                                             rng.choice([4, 8, 16]), rng.randrange(2 ** 31))
+
+
 def gen(rng, tier):
     scale = {"quick": 1, "thorough": 6, "search": 3}[tier]
     out = []
@@ -204,5 +221,6 @@ def gen(rng, tier):
     for _ in range(110 * scale): out.append(gen_alias(rng))
     for _ in range(60 * scale): out.append(gen_randp(rng))
     for _ in range(70 * scale): out.append(gen_proj(rng))
+    for _ in range(60 * scale): out.append(gen_sr(rng))
     rng.shuffle(out)
     return out
